@@ -157,6 +157,7 @@ func TestVerif_C10(t *testing.T) {
 		}
 		res.Evaluations++
 		res.Distinct++
+		res.Sample(3, map[string]any{"part": "roundtrip+faults", "program": f.Prog, "opt_level": f.Opt, "bytecode_hex": fmt.Sprintf("%x", f.Bytes)})
 		for _, x := range c10RoundTrip(tb, f, map[byte]bool{}) {
 			pr := f.Prog
 			res.Violate(x.Key, x.Desc, c10Replay{Part: "roundtrip", Key: x.Key, Prog: &pr, Opt: f.Opt})
